@@ -36,6 +36,13 @@
   END TO END (last section; the forest lemma families are imported through Props/C04):
     C01_reachable_roundtrip (+ _fragment, _store)   for EVERY tree an API history can build: value-level
         conditions + writable names => `to_string` succeeds and `parse` gives back exactly that tree
+  NON-DEFAULT TOKEN PARAMETERS (very last section; Lemmas/RoundTripParams.lean, Lemmas/SerOpt*.lean):
+    C01_text_unescaped_gt (+ _lexsafe, _spelling, _input)   `unescaped_gt`: `>` raw except right after `]]`; decodes back
+    C01_cdata_run, C01_cdata_sections_carry, C01_cdata_nonXmlChar_unwritable   `serialize_cdata` as a token run
+    C01_serialised_is_rendering_params, C01_text_node_tokens   the tokens under any parameters
+    C01_roundtrip_unescaped_gt, C01_roundtrip_cdata, C01_roundtrip_params (+ _fragment, _writable)
+        the closed loop for `unescaped_gt = true`, for CDATA-section elements, for every parameter set
+    C01_reachable_roundtrip_params   the same for every tree an API history can build
 -/
 import XotModel.Lemmas.Entity
 import XotModel.Lemmas.SerTokensLexTop
@@ -54,6 +61,7 @@ import XotModel.Lemmas.ReachE2E
 import XotModel.Lemmas.FparseHistReach
 import XotModel.Lemmas.FparseValsReach
 import XotModel.Lemmas.RepairRoundTrip
+import XotModel.Lemmas.RoundTripParams
 
 namespace XotModel.Props
 open XotModel XotModel.Gen
@@ -1147,5 +1155,235 @@ example : ∃ s p', toXmlString ((PStore.init Env.fresh).run fullCalls).env full
     exact ⟨s, p', h1, h2, h3⟩
 
 end ParseEditSerialise
+
+/-! ## NON-DEFAULT TOKEN PARAMETERS: `unescaped_gt`, CDATA-section elements
+
+`xml::Parameters { cdata_section_elements, unescaped_gt, .. }` change how TEXT NODES are written and nothing
+else (`XmlSerializer::render_output`, `Output::Text` arm): a text child of a listed element is written by
+`serialize_cdata` — one or more `<![CDATA[…]]>` sections, cut between `]]` and `>` of every `]]>` and at every
+carriage return, which stands BETWEEN two sections as the reference `&#xD;` —, any other text node by
+`serialize_text(unescaped_gt)`.  The tokenizer returns several CDATA (and `&#xD;` text) tokens for such a run;
+the builder (`Cdata` / `Text` arms of `Xot::_parse`: CDATA content becomes text, neighbouring character data
+is consolidated) makes ONE text node of it.  The proof transports the default round trip along "same spelling
+up to the character data runs" (`NSNode.Resp`, Lemmas/SerOptDefs.lean); pretty printing, XML declaration and
+doctype are C14's. -/
+
+section Params
+
+/-! ### Character level -/
+
+/-- `unescaped_gt = true`: the text still decodes to the value — a raw `>` is read back as `>`. -/
+theorem C01_text_unescaped_gt (s : Str) : parseText (serializeText true s) = .ok s :=
+  gt_text_roundtrip s
+
+/-- … and the output contains neither a raw `<` nor the sequence `]]>`: the `>` of a `]]>` IS escaped. -/
+theorem C01_text_unescaped_gt_lexsafe (s : Str) :
+    '<' ∉ serializeText true s ∧ hasCdataEnd (serializeText true s) = false := by
+  refine ⟨?_, gt_no_cdata_end s⟩
+  unfold serializeText
+  simp only [if_true]
+  rw [serializeTextGtGo_eq]
+  simpa using gtOut_hides (c := '<') (by decide) (by decide) (by decide) s []
+
+/-- What `serialize_text(unescaped_gt = true)` writes, as a spelling: one piece per character
+    (`gtPieces`, Lemmas/SerOptDefs.lean) — a `>` is the literal `>` unless the OUTPUT written so far ends with
+    `]]` (the code's `result.chars().rev().take(2)`), in which case it is `&gt;`; every other character as
+    without the flag.  It renders to the serialised text, denotes the value and is well spelled. -/
+theorem C01_text_unescaped_gt_spelling (s : Str) :
+    renderPieces (gtPieces [] s) = serializeText true s ∧ valueOf false (gtPieces [] s) = s ∧
+      WellSpelled (gtPieces [] s) :=
+  ⟨renderPieces_txtPieces true s, valueOf_gtPieces s [], wellSpelled_gtPieces s []⟩
+
+/-- The same rule on the INPUT (`gtIn`, Lemmas/RoundTripParams.lean: `rin` = the characters read so far,
+    reversed): a `>` is written `&gt;` exactly when the two characters of the text before it are `]]`, raw
+    otherwise — the output ends with `]]` iff the input read so far does. -/
+theorem C01_text_unescaped_gt_input (s : Str) : serializeText true s = gtIn [] s :=
+  serializeText_true_input s
+
+example : serializeText true "a]]>b>c".toList = "a]]&gt;b>c".toList := by decide
+example : serializeText true "]>]]]>>".toList = "]>]]]&gt;>".toList := by decide
+example : serializeText false "a]]>b>c".toList = "a]]&gt;b&gt;c".toList := by decide
+
+/-- `serialize_cdata s` is the canonical rendering of the token run `cdataTokens s`: CDATA tokens and
+    `&#xD;` text tokens, beginning with a CDATA token, no two text tokens in a row; for a text of XML
+    characters every token meets the tokenizer's side condition, and the run denotes `s` for the builder. -/
+theorem C01_cdata_run (s : Str) (hs : s.all isXmlChar = true) :
+    renderTokens (cdataTokens s) = serializeCdata s ∧ GoodRun (cdataTokens s) ∧
+    (∃ t rest, cdataPartsGo [] s = .cd t noSpan :: rest) ∧
+    partsValue (cdataPartsGo [] s) = s ∧ (∀ p ∈ cdataPartsGo [] s, p.Well) ∧
+    (∀ ps st, SPart.txt ps st ∈ cdataPartsGo [] s → SPart.txt ps st = crPart) :=
+  ⟨renderTokens_cdataTokens s, cdataTokens_goodRun s hs, cdataPartsGo_head [] s,
+   by simpa using partsValue_cdataPartsGo s [] (by simp), cdataPartsGo_well s [], cdataPartsGo_txt s []⟩
+
+/-- **Which characters a section carries**: XML characters of the text, written as they are (no escaping
+    exists inside a section), never the sequence `]]>` (the run is cut inside it), never a carriage return
+    (it would be read back as a line feed: it is the reference between two sections). -/
+theorem C01_cdata_sections_carry (s : Str) (hs : s.all isXmlChar = true) (t j : StrSpan)
+    (hm : SPart.cd t j ∈ cdataPartsGo [] s) :
+    t.text.all isXmlChar = true ∧ hasCdataEnd t.text = false ∧ '\r' ∉ t.text ∧ ∀ c ∈ t.text, c ∈ s :=
+  cdata_sections_carry s hs t j hm
+
+/-- A character that is no XML character cannot be written: `serialize_cdata` puts it raw into a section
+    (as `serialize_text` puts it raw into the text), and that token violates the tokenizer's side condition
+    (`Representable` excludes such texts; the rt suite's `non-xml-char` mutation shows the reparse fail). -/
+theorem C01_cdata_nonXmlChar_unwritable (s : Str) (c : Char) (hc : c ∈ s) (hx : isXmlChar c = false) :
+    ∃ k ∈ cdataTokens s, k.lexOK = false :=
+  cdata_nonXmlChar_unwritable s c hc hx
+
+example : serializeCdata "a]]>b>c".toList = "<![CDATA[a]]]]><![CDATA[>b>c]]>".toList := by decide
+example : cdataTokens "a]]>b>c".toList =
+    [.cdata (sp0 "a]]".toList) noSpan, .cdata (sp0 ">b>c".toList) noSpan] := by decide
+example : cdataTokens "]]\r>".toList =
+    [.cdata (sp0 "]]".toList) noSpan, .text (sp0 "&#xD;".toList), .cdata (sp0 ">".toList) noSpan] := by decide
+
+/-! ### Tree level -/
+
+/-- `serialize_xml_string` under ANY token parameters, any start node, is the canonical rendering of
+    `serTokensAtO` (Lemmas/SerOptDefs.lean), failing together with the same error — the extension of
+    `C01_serialised_is_rendering_at` to CDATA-section elements. -/
+theorem C01_serialised_is_rendering_params (env : Env) (pr : TokenParams) (t : Tree) (start : Path)
+    (hx : env.prefixStr Env.xmlPrefix ≠ []) (ht : t.allNodes (declsNamed env) = true) :
+    serializeString env pr t start =
+      (match serTokensAtO env pr t start with
+       | .ok ts => .ok (renderTokens ts)
+       | .error e => .err e) :=
+  serializeString_serTokensAtO env pr t start hx ht
+
+/-- `serTokensAtO` differs from `serTokensAt` in the text nodes only: a text leaf whose parent is a listed
+    element (`cd = true`) contributes the run `cdataTokens`, any other ONE text token
+    `serialize_text(unescaped_gt)`. -/
+theorem C01_text_node_tokens (env : Env) (pr : TokenParams) (inScope : List (Nat × Nat)) (isTop : Bool)
+    (s : FStack) (str : Str) :
+    serNodeO env pr inScope isTop s true (.node (.text str) []) = .ok (cdataTokens str) ∧
+    serNodeO env pr inScope isTop s false (.node (.text str) []) =
+      .ok [.text (sp0 (serializeText pr.unescapedGt str))] := by
+  rw [serNodeO_text_leaf, serNodeO_text_leaf, textTokens_cdata, textTokens_plain]
+  exact ⟨rfl, rfl⟩
+
+/-- **C01_roundtrip_params** (`parse`): for EVERY token parameter set, every table set and every
+    representable document: if `serialize_xml_string` succeeds, `parse` of the string succeeds and returns
+    the ORIGINAL tree, id for id — in particular ONE text node with the original content where several
+    CDATA sections were written —, tables unchanged, `deep_equal`. -/
+theorem C01_roundtrip_params (env : Env) (pr : TokenParams) (t : Tree) (hr : Representable env t = true)
+    (s : Str) (hs : serializeString env pr t [] = .ok s) :
+    ∃ p, parseString .document env s = .ok p ∧ p.tree = t ∧ p.env = env ∧ deepEqual p.tree t = true := by
+  obtain ⟨_, _, p, _, _, _, _, _, h1, h2, h3, h4⟩ := params_roundtrip_full env pr hr hs
+  exact ⟨p, h1, h2, h3, h4⟩
+
+/-- `parse_fragment` (several top-level elements, top-level text — never CDATA: a text node directly under
+    the document node has no element parent). -/
+theorem C01_roundtrip_params_fragment (env : Env) (pr : TokenParams) (t : Tree)
+    (hr : RepresentableFragment env t = true) (s : Str) (hs : serializeString env pr t [] = .ok s) :
+    ∃ p, parseString .fragment env s = .ok p ∧ p.tree = t ∧ p.env = env ∧ deepEqual p.tree t = true := by
+  obtain ⟨_, _, p, _, _, _, _, _, h1, h2, h3, h4⟩ := params_roundtrip_full_fragment env pr hr hs
+  exact ⟨p, h1, h2, h3, h4⟩
+
+/-- **C01_roundtrip_unescaped_gt**: `unescaped_gt = true`. -/
+theorem C01_roundtrip_unescaped_gt (env : Env) (t : Tree) (hr : Representable env t = true) (s : Str)
+    (hs : serializeString env { unescapedGt := true } t [] = .ok s) :
+    ∃ p, parseString .document env s = .ok p ∧ p.tree = t ∧ p.env = env ∧ deepEqual p.tree t = true :=
+  C01_roundtrip_params env _ t hr s hs
+
+/-- **C01_roundtrip_cdata**: any list `cd` of CDATA-section elements (`unescaped_gt` on or off).  With the
+    intermediate stations: the string is the rendering of `serTokensAtO` (text children of listed elements
+    = `cdataTokens`); the reference tokenizer returns exactly these tokens, several CDATA tokens per such
+    text node, up to byte positions; the builder gives back the original tree. -/
+theorem C01_roundtrip_cdata (env : Env) (cd : List Nat) (ugt : Bool) (t : Tree)
+    (hr : Representable env t = true) (s : Str)
+    (hs : serializeString env { cdataSectionElements := cd, unescapedGt := ugt } t [] = .ok s) :
+    ∃ ts ts' p, serTokensAtO env { cdataSectionElements := cd, unescapedGt := ugt } t [] = .ok ts ∧
+      s = renderTokens ts ∧ lexDocument s = (ts', none) ∧ ts'.map Token.erase = ts.map Token.erase ∧
+      parseString .document env s = .ok p ∧ p.tree = t ∧ p.env = env ∧ deepEqual p.tree t = true := by
+  obtain ⟨ts, ts', p, h1, h2, _, h4, h5, h6, h7, h8, h9⟩ := params_roundtrip_full env _ hr hs
+  exact ⟨ts, ts', p, h1, h2, h4, h5, h6, h7, h8, h9⟩
+
+/-- The parameters never decide about success: `serialize_xml_string` succeeds iff `to_string` does, iff
+    every namespaced name has a usable prefix in scope. -/
+theorem C01_params_serialises (env : Env) (pr : TokenParams) (t : Tree)
+    (hr : RepresentableFragment env t = true) :
+    (∃ s, serializeString env pr t [] = .ok s) ↔ namesWritable env t [] = some true :=
+  options_serialises env pr hr
+
+/-- The property as one statement on the tree, for every parameter set. -/
+theorem C01_roundtrip_params_writable (env : Env) (pr : TokenParams) (t : Tree)
+    (hr : Representable env t = true) (hw : namesWritable env t [] = some true) :
+    ∃ s p, serializeString env pr t [] = .ok s ∧ parseString .document env s = .ok p ∧ p.tree = t ∧
+      p.env = env ∧ deepEqual p.tree t = true := by
+  have hfrag : RepresentableFragment env t = true := by
+    simp only [Representable, Bool.and_eq_true] at hr; exact hr.1
+  obtain ⟨s, hs⟩ := (C01_params_serialises env pr t hfrag).mpr hw
+  obtain ⟨p, h1, h2, h3, h4⟩ := C01_roundtrip_params env pr t hr s hs
+  exact ⟨s, p, hs, h1, h2, h3, h4⟩
+
+/-- END TO END under any token parameters: every document an API history can build (hypotheses as in
+    `C01_reachable_roundtrip`: value-level conditions and writable names only) serialises, and the text
+    parses back to exactly that tree. -/
+theorem C01_reachable_roundtrip_params (env : Env) (pr : TokenParams) (cs : List Forest.XCall)
+    (hw : ∀ c ∈ cs, c.wellKinded)
+    (hoff : ((⟨Forest.init, env⟩ : Store).xrun cs).forest.everOff = false)
+    (r : HTree) (hr : r ∈ ((⟨Forest.init, env⟩ : Store).xrun cs).forest.roots)
+    (hdoc : r.value.isDocument = true) (env' : Env) (henv : envOK env' = true)
+    (hval : r.erase.allNodes (fun v _ => valueOK env' v) = true)
+    (hid : (xmlIdValues env' r.erase).Nodup) (hone : singleRoot r.erase = true)
+    (hwr : namesWritable env' r.erase [] = some true) :
+    ∃ s p, serializeString env' pr r.erase [] = .ok s ∧ parseString .document env' s = .ok p ∧
+      p.tree = r.erase ∧ p.env = env' ∧ deepEqual p.tree r.erase = true := by
+  have hrep : Representable env' r.erase = true := by
+    rw [(C01_reachable_representable env cs hw hoff r hr env').2]
+    simp [henv, hdoc, hval, hid, hone]
+  exact C01_roundtrip_params_writable env' pr r.erase hrep hwr
+
+/-! Non-vacuity, closed (tables `c01Env`: name 4 = `k`, name 5 = `t`, both in no namespace): the text
+    `a]]>b>c` under the listed element `k` and under the unlisted element `t`. -/
+
+def c01ParamDoc : Tree :=
+  .node .document [.node (.element 5) [
+    .node (.element 4) [.node (.text ['a', ']', ']', '>', 'b', '>', 'c']) []],
+    .node (.element 5) [.node (.text ['a', ']', ']', '>', 'b', '>', 'c']) []]]]
+
+def c01Params : TokenParams := { cdataSectionElements := [4], unescapedGt := true }
+
+/-- listed: two sections, cut between `]]` and `>`; unlisted with `unescaped_gt`: only the `>` of `]]>`
+    is escaped. -/
+def c01ParamText : Str := "<t><k><![CDATA[a]]]]><![CDATA[>b>c]]></k><t>a]]&gt;b>c</t></t>".toList
+
+example : Representable c01Env c01ParamDoc = true := by decide
+example : serializeString c01Env c01Params c01ParamDoc [] = .ok c01ParamText := by decide
+example : serializeString c01Env { cdataSectionElements := [4] } c01ParamDoc [] =
+    .ok "<t><k><![CDATA[a]]]]><![CDATA[>b>c]]></k><t>a]]&gt;b&gt;c</t></t>".toList := by decide
+example : serializeString c01Env { unescapedGt := true } c01ParamDoc [] =
+    .ok "<t><k>a]]&gt;b>c</k><t>a]]&gt;b>c</t></t>".toList := by decide
+example : toXmlString c01Env c01ParamDoc [] =
+    .ok "<t><k>a]]&gt;b&gt;c</k><t>a]]&gt;b&gt;c</t></t>".toList := by decide
+
+/-- The tokens: two CDATA tokens for the text under `k`, one text token for the text under `t`. -/
+example : (serTokensAtO c01Env c01Params c01ParamDoc []).toOption = some
+    [.elementStart (sp0 []) (sp0 ['t']) noSpan, .elementEnd .open noSpan,
+     .elementStart (sp0 []) (sp0 ['k']) noSpan, .elementEnd .open noSpan,
+     .cdata (sp0 "a]]".toList) noSpan, .cdata (sp0 ">b>c".toList) noSpan,
+     .elementEnd (.close (sp0 []) (sp0 ['k'])) noSpan,
+     .elementStart (sp0 []) (sp0 ['t']) noSpan, .elementEnd .open noSpan,
+     .text (sp0 "a]]&gt;b>c".toList),
+     .elementEnd (.close (sp0 []) (sp0 ['t'])) noSpan,
+     .elementEnd (.close (sp0 []) (sp0 ['t'])) noSpan] := by decide
+
+/-- Closed: the text parses back to the document — ONE text node `a]]>b>c` under `k`. -/
+example : ∃ p, parseString .document c01Env c01ParamText = .ok p ∧ p.tree = c01ParamDoc ∧ p.env = c01Env ∧
+    deepEqual p.tree c01ParamDoc = true :=
+  C01_roundtrip_params c01Env c01Params c01ParamDoc (by decide) c01ParamText (by decide)
+
+example : ∃ p, parseString .document c01Env "<t><k>a]]&gt;b>c</k><t>a]]&gt;b>c</t></t>".toList = .ok p ∧
+    p.tree = c01ParamDoc ∧ p.env = c01Env ∧ deepEqual p.tree c01ParamDoc = true :=
+  C01_roundtrip_unescaped_gt c01Env c01ParamDoc (by decide) _ (by decide)
+
+example : ∃ ts ts' p, serTokensAtO c01Env { cdataSectionElements := [4], unescapedGt := false } c01ParamDoc [] = .ok ts ∧
+    "<t><k><![CDATA[a]]]]><![CDATA[>b>c]]></k><t>a]]&gt;b&gt;c</t></t>".toList = renderTokens ts ∧
+    lexDocument "<t><k><![CDATA[a]]]]><![CDATA[>b>c]]></k><t>a]]&gt;b&gt;c</t></t>".toList = (ts', none) ∧
+    ts'.map Token.erase = ts.map Token.erase ∧
+    parseString .document c01Env "<t><k><![CDATA[a]]]]><![CDATA[>b>c]]></k><t>a]]&gt;b&gt;c</t></t>".toList = .ok p ∧
+    p.tree = c01ParamDoc ∧ p.env = c01Env ∧ deepEqual p.tree c01ParamDoc = true :=
+  C01_roundtrip_cdata c01Env [4] false c01ParamDoc (by decide) _ (by decide)
+
+end Params
 
 end XotModel.Props
